@@ -213,6 +213,15 @@ def envVm (T : SignTab.Tab) (l : Led.St) (w pass : String) (warm : Nat) : Sign.E
     | none => none
   params := pass
 
+/-- the symbolic environment (token-less `sign` lines) with the same class lifting: a binding output whose previous height
+    has reached the warm-up height carries the MASSIP-2 sequence rule (`seqOk .bind2`) -/
+def envSym (l : Led.St) (w pass : String) : Sign.Env symCrypto String :=
+  let e := envOf l (Led.lenOf l.shape) w pass
+  { e with resolve := fun op =>
+      match e.resolve op with
+      | .error err => .error err
+      | .ok po => .ok { po with cls := po.cls.atHeight l.warm (prevHeight l (Led.lenOf l.shape) w op) } }
+
 /-- `signTx` with the script VM model as the engine (`vmEngine (tabCodec T)`): the witness the model builds
     (signature ‖ hash-type byte, redeem script) is run through `ScriptVM.verify` for every input -/
 def signVm (st : St) (w rpass p : String) (fl : Sign.Flag) (tx : Ledger.Tx) (toks : List String) : String :=
@@ -471,7 +480,7 @@ def step (st : St) (args : List String) : St × String :=
           let ks := { st.ks with wal := Secrets.clearAll st.ks.wal }
           -- with oracle tokens: the script VM model over real bytes; without (corpus lines): the symbolic engine
           let m := if toks.isEmpty then
-              (match (Sign.signTx symEngine (envOf st.led (Led.lenOf st.led.shape) w r.pass) (Sign.Lock.locked symCrypto) p fl (toSignTx tx)).2 with
+              (match (Sign.signTx symEngine (envSym st.led w r.pass) (Sign.Lock.locked symCrypto) p fl (toSignTx tx)).2 with
                | .ok _ => "ok" | .error e => errTok e)
             else signVm st w r.pass p fl tx toks
           ({ st with ks := ks }, withSpec m sp)
